@@ -61,111 +61,95 @@ def check_shape_table(facts):
 
 
 class Specs:
-    """RecFunctions over the PV universe shared by several properties."""
+    """Spec functions over the PV universe shared by several properties (DefFuns: see deffun.py)."""
 
     def __init__(self, U):
+        from .deffun import DefFun
         self.U = U
         self.PV = U.PV
-        self._shape = None
-        self.e = z3.Const("e!s", U.PV)
-        self.q = z3.Const("q!s", U.Seq)
+        PV = U.PV
+        B = z3.BoolSort()
 
-    # ---- shape ---------------------------------------------------------------------------
+        def all_str_body(q):
+            n = z3.Length(q)
+            return z3.If(n == 0, z3.BoolVal(True),
+                         z3.And(U.is_tag("StrV", q[0]), self.all_str(z3.SubSeq(q, 1, n - 1))))
+        self.all_str = DefFun("all_str", [U.Seq], B, all_str_body, cheap=True)
+
+        def all_shape_body(q):
+            n = z3.Length(q)
+            return z3.If(n == 0, z3.BoolVal(True),
+                         z3.And(U.is_node(q[0], EXPR_KINDS + ["NamedParam"]), self._shape(q[0]),
+                                self.all_shape(z3.SubSeq(q, 1, n - 1))))
+        self.all_shape = DefFun("all_shape", [U.Seq], B, all_shape_body, cheap=True)
+
+        def shape_body(e):
+            body = z3.BoolVal(False)
+            for k in reversed(U.facts.kinds):
+                conds = [self.field_ok(SHAPE[k][f], U.field(k, f, e)) for f in U.facts.kind_fields[k]]
+                body = z3.If(U.is_kind(k, e), z3.And(*conds) if conds else z3.BoolVal(True), body)
+            return body
+        self._shape = DefFun("shape", [PV], B, shape_body)
+
     def shape(self):
         """shape(n): n is a tree the parser can produce, field-type-wise (recursive)."""
-        if self._shape is not None:
-            return self._shape
+        return self._shape
+
+    def field_ok(self, spec, t):
         U, PV = self.U, self.PV
-        shape = z3.RecFunction("shape", PV, z3.BoolSort())
-        all_shape = z3.RecFunction("all_shape", U.Seq, z3.BoolSort())
-        all_str = z3.RecFunction("all_str", U.Seq, z3.BoolSort())
-        e, q = self.e, self.q
-        n = z3.Length(q)
-        z3.RecAddDefinition(all_str, [q], z3.If(n == 0, z3.BoolVal(True),
-                                                z3.And(U.is_tag("StrV", q[0]), all_str(z3.SubSeq(q, 1, n - 1)))))
-        arg_ok = lambda t: z3.And(U.is_node(t, EXPR_KINDS + ["NamedParam"]), shape(t))
-        z3.RecAddDefinition(all_shape, [q], z3.If(n == 0, z3.BoolVal(True),
-                                                  z3.And(arg_ok(q[0]), all_shape(z3.SubSeq(q, 1, n - 1)))))
-
-        def field_ok(spec, t):
-            if spec == "str":
-                return U.is_tag("StrV", t)
-            if spec == "strs":
-                return z3.And(U.is_tag("TupleV", t), all_str(PV.titems(t)))
-            if spec == "expr":
-                return z3.And(U.is_node(t, EXPR_KINDS), shape(t))
-            if spec in ("exprs", "args"):
-                return z3.And(U.is_tag("ListV", t), all_shape(PV.items(t)))
-            if spec[0] == "kind":
-                return z3.And(U.is_node(t, spec[1]), shape(t))
-            if spec[0] == "opt":
-                return z3.Or(U.is_tag("NoneV", t), field_ok(spec[1], t))
-            raise ValueError(spec)
-
-        body = z3.BoolVal(False)
-        for k in reversed(U.facts.kinds):
-            conds = [field_ok(SHAPE[k][f], U.field(k, f, e)) for f in U.facts.kind_fields[k]]
-            body = z3.If(U.is_kind(k, e), z3.And(*conds) if conds else z3.BoolVal(True), body)
-        z3.RecAddDefinition(shape, [e], body)
-        self._shape = shape
-        self.all_shape = all_shape
-        self.all_str = all_str
-        return shape
+        if spec == "str":
+            return U.is_tag("StrV", t)
+        if spec == "strs":
+            return z3.And(U.is_tag("TupleV", t), self.all_str(PV.titems(t)))
+        if spec == "expr":
+            return z3.And(U.is_node(t, EXPR_KINDS), self._shape(t))
+        if spec in ("exprs", "args"):
+            return z3.And(U.is_tag("ListV", t), self.all_shape(PV.items(t)))
+        if spec[0] == "kind":
+            return z3.And(U.is_node(t, spec[1]), self._shape(t))
+        if spec[0] == "opt":
+            return z3.Or(U.is_tag("NoneV", t), self.field_ok(spec[1], t))
+        raise ValueError(spec)
 
     def field_shape(self, kind, fname, t):
-        """shape constraint of one field value (used to state preconditions on fresh field consts)."""
-        self.shape()
-        U, PV = self.U, self.PV
-        spec = SHAPE[kind][fname]
-
-        def ok(spec, t):
-            if spec == "str":
-                return U.is_tag("StrV", t)
-            if spec == "strs":
-                return z3.And(U.is_tag("TupleV", t), self.all_str(PV.titems(t)))
-            if spec == "expr":
-                return z3.And(U.is_node(t, EXPR_KINDS), self._shape(t))
-            if spec in ("exprs", "args"):
-                return z3.And(U.is_tag("ListV", t), self.all_shape(PV.items(t)))
-            if spec[0] == "kind":
-                return z3.And(U.is_node(t, spec[1]), self._shape(t))
-            if spec[0] == "opt":
-                return z3.Or(U.is_tag("NoneV", t), ok(spec[1], t))
-        return ok(spec, t)
+        return self.field_ok(SHAPE[kind][fname], t)
 
     # ---- generic structural map ----------------------------------------------------------
     def node_map(self, name, extra_sorts, special):
-        """RecFunction f(extra..., e) that rebuilds every node from f(children) (node fields and
-        list items), except where `special(f, fmap, extras, e)` returns a list of (cond, value)
-        cases tried first.  Returns (f, fmap) with fmap the pointwise lift to sequences."""
+        """DefFun f(extra..., e) that rebuilds every node from f(children) (node fields and list
+        items), except where `special(f, fmap, extras, e)` returns (cond, value) cases tried first.
+        Returns (f, fmap) with fmap the pointwise lift to sequences."""
+        from .deffun import DefFun
         U, PV = self.U, self.PV
-        extras = [z3.Const(f"x{i}!{name}", s) for i, s in enumerate(extra_sorts)]
-        f = z3.RecFunction(name, *extra_sorts, PV, PV)
-        fmap = z3.RecFunction(name + "_map", *extra_sorts, U.Seq, U.Seq)
-        e, q = self.e, self.q
-        n = z3.Length(q)
-        z3.RecAddDefinition(fmap, extras + [q], z3.If(
-            n == 0, z3.Empty(U.Seq),
-            z3.Concat(z3.Unit(z3.If(U.is_node(q[0]), f(*extras, q[0]), q[0])),
-                      fmap(*extras, z3.SubSeq(q, 1, n - 1)))))
+        holder = {}
 
-        def lift(t):
-            # what NodeTransformer-style rebuilding does with a field value
-            return z3.If(U.is_tag("ListV", t), PV.ListV(fmap(*extras, PV.items(t))),
-                         z3.If(U.is_node(t), f(*extras, t), t))
+        def fmap_body(*args):
+            extras, q = list(args[:-1]), args[-1]
+            n = z3.Length(q)
+            f = holder["f"]
+            return z3.If(n == 0, z3.Empty(U.Seq),
+                         z3.Concat(z3.Unit(z3.If(U.is_node(q[0]), f(*extras, q[0]), q[0])),
+                                   holder["fmap"](*extras, z3.SubSeq(q, 1, n - 1))))
 
-        body = e
-        for k in reversed(U.facts.kinds):
-            fields = U.facts.kind_fields[k]
-            if not fields:
-                rebuilt = e
-            else:
-                rebuilt = U.node(k, *[lift(U.field(k, fn, e)) for fn in fields])
-            body = z3.If(U.is_kind(k, e), rebuilt, body)
-        for cond, val in reversed(special(f, fmap, extras, e)):
-            body = z3.If(cond, val, body)
-        z3.RecAddDefinition(f, extras + [e], body)
-        return f, fmap
+        def f_body(*args):
+            extras, e = list(args[:-1]), args[-1]
+            f, fmap = holder["f"], holder["fmap"]
+
+            def lift(t):
+                return z3.If(U.is_tag("ListV", t), PV.ListV(fmap(*extras, PV.items(t))),
+                             z3.If(U.is_node(t), f(*extras, t), t))
+            body = e
+            for k in reversed(U.facts.kinds):
+                fields = U.facts.kind_fields[k]
+                rebuilt = e if not fields else U.node(k, *[lift(U.field(k, fn, e)) for fn in fields])
+                body = z3.If(U.is_kind(k, e), rebuilt, body)
+            for cond, val in reversed(special(f, fmap, extras, e)):
+                body = z3.If(cond, val, body)
+            return body
+
+        holder["f"] = DefFun(name, list(extra_sorts) + [PV], PV, f_body)
+        holder["fmap"] = DefFun(name + "_map", list(extra_sorts) + [U.Seq], U.Seq, fmap_body, cheap=True)
+        return holder["f"], holder["fmap"]
 
 
 # ------------------------------------------------------------------------------------------
@@ -178,14 +162,18 @@ class LoopStepDone(Exception):
 class SeqLoopInvariant:
     """inv(E, path, frame, rest_seq, whole_seq) -> z3 Bool over the frame's current locals."""
 
-    def __init__(self, inv, modifies=None):
+    def __init__(self, inv, modifies=None, ghost=()):
         self.inv = inv
         self.modifies = modifies
+        self.ghost = tuple(ghost)       # names of ghost sequences the loop body may extend
 
     def run(self, E, path, frame, stmt, iterable):
         U = E.U
         whole = E.symbolic_seq(path, iterable)
+        path.ghost["_entry"] = {g: path.ghost.get(g) for g in self.ghost}
         path.oblige("inv.init", self.inv(E, path, frame, whole, whole))
+        for g in self.ghost:
+            path.ghost[g] = U.fresh("hv_" + g, U.Seq)
         mods = self.modifies or _modified_names(stmt)
         for name in mods:
             if not frame.is_local(name):
